@@ -622,6 +622,9 @@ class McBlockExtra(TlbScheme):
         key_block = cell_slice.load_bit()
         shard_hashes = deserialize_shard_hashes(cell_slice)
         shard_fees = cell_slice.load_maybe_ref()
+        # ShardFees = HashmapAugE 96 ShardFeeCreated ShardFeeCreated: skip its extra (fees, create)
+        CurrencyCollection.deserialize(cell_slice)
+        CurrencyCollection.deserialize(cell_slice)
         ref = cell_slice.load_ref().begin_parse()
         prev_blk_signatures = ref.load_dict(16)
         recover_create_msg = ref.load_maybe_ref()
